@@ -65,7 +65,15 @@ class ProcessLine(spawn_context.Process):
         else:
             ex,tb = None,None
 
-        self._send.send((ex, tb, hasattr(self._line[0],'_poisoned') and self._line[0]._poisoned))
+        poisoned = hasattr(self._line[0],'_poisoned') and self._line[0]._poisoned
+
+        try:
+            self._send.send((ex, tb, poisoned))
+        except Exception:
+            #the exception itself could not be pickled (e.g., it holds on to a lambda). If we die here the
+            #parent never learns that the line failed so we send a description of the exception instead.
+            if ex is None: raise
+            self._send.send((CobaException(f"{type(ex).__name__}: {ex}"), tb, poisoned))
 
     def join(self) -> None:
         super().join()
